@@ -396,36 +396,57 @@ pub fn run_c20(tier: Tier) -> i32 {
     let loom_bin = verif_dir().join("target/loom/release/mc-loom");
     let mut loom_doc = json!({"run": false, "reason": "mc-loom binary not built"});
     if loom_bin.exists() {
-        let (threads, calls, bound) = if tier == Tier::Quick { ("2", "2", "3") } else { ("3", "2", "4") };
-        let out = std::process::Command::new(&loom_bin)
-            .env("LOOM_MAX_PREEMPTIONS", bound)
-            .env("LOOM_THREADS", threads)
-            .env("LOOM_CALLS", calls)
-            .env("LOOM_ELEMS", "3")
-            .output();
-        match out {
-            Ok(o) => {
-                let line = String::from_utf8_lossy(&o.stdout);
-                let line = line.lines().last().unwrap_or("").to_string();
-                match serde_json::from_str::<serde_json::Value>(&line) {
-                    Ok(mut v) => {
-                        v["threads"] = json!(threads);
-                        v["calls_per_thread"] = json!(calls);
-                        v["preemption_bound"] = json!(bound);
-                        v["run"] = json!(v["extracted"].as_bool().unwrap_or(false));
-                        if let Some(viol) = v["violation"].as_str() {
-                            st.failures.push(("C20-rr-unbalanced-threads(loom)".into(), viol.to_string()));
+        // (threads, calls per thread, elements, preemption bound): few calls over three backends,
+        // and enough calls over two backends for a cursor race to accumulate a visible imbalance
+        let plans: Vec<(&str, &str, &str, &str)> = if tier == Tier::Quick {
+            vec![("2", "2", "3", "3"), ("2", "4", "2", "4")]
+        } else {
+            vec![("2", "2", "3", "3"), ("2", "4", "2", "4"), ("3", "2", "3", "4"), ("2", "5", "2", "4"), ("2", "3", "3", "5")]
+        };
+        let mut runs = vec![];
+        let mut all_ran = true;
+        for (threads, calls, elems, bound) in plans {
+            let out = std::process::Command::new(&loom_bin)
+                .env("LOOM_MAX_PREEMPTIONS", bound)
+                .env("LOOM_THREADS", threads)
+                .env("LOOM_CALLS", calls)
+                .env("LOOM_ELEMS", elems)
+                .output();
+            match out {
+                Ok(o) => {
+                    let text = String::from_utf8_lossy(&o.stdout);
+                    let line = text.lines().last().unwrap_or("").to_string();
+                    match serde_json::from_str::<serde_json::Value>(&line) {
+                        Ok(mut v) => {
+                            v["threads"] = json!(threads);
+                            v["calls_per_thread"] = json!(calls);
+                            v["backends"] = json!(elems);
+                            v["preemption_bound"] = json!(bound);
+                            if !v["extracted"].as_bool().unwrap_or(false) {
+                                all_ran = false;
+                            }
+                            if let Some(viol) = v["violation"].as_str() {
+                                st.failures.push((
+                                    "C20-rr-unbalanced-threads(loom)".into(),
+                                    format!("{threads} threads x {calls} calls + 1 over {elems} backends, preemption bound {bound}: {viol}"),
+                                ));
+                            }
+                            st.evals += v["executions"].as_u64().unwrap_or(0);
+                            runs.push(v);
                         }
-                        st.evals += v["executions"].as_u64().unwrap_or(0);
-                        loom_doc = v;
-                    }
-                    Err(_) => {
-                        loom_doc = json!({"run": false, "reason": format!("unparsable output (exit {:?}): {}", o.status.code(), String::from_utf8_lossy(&o.stderr).lines().last().unwrap_or(""))});
+                        Err(_) => {
+                            all_ran = false;
+                            runs.push(json!({"run": false, "reason": format!("unparsable output (exit {:?}): {}", o.status.code(), String::from_utf8_lossy(&o.stderr).lines().last().unwrap_or(""))}));
+                        }
                     }
                 }
+                Err(e) => {
+                    all_ran = false;
+                    runs.push(json!({"run": false, "reason": e.to_string()}));
+                }
             }
-            Err(e) => loom_doc = json!({"run": false, "reason": e.to_string()}),
         }
+        loom_doc = json!({"run": all_ran, "runs": runs});
     }
     finish_grid(
         "C20",
